@@ -711,7 +711,7 @@ def oracle_expected(store, req, fs):
 def version_has(version, f):
     """policy.is_attribute_supported for the filter's attribute under the request's version."""
     from kmip.services.server import policy as spol
-    name = filter_to_attr(f).attribute_name.value
+    name = f[1] if f[0] == 'other' else filter_to_attr(f).attribute_name.value
     return spol.AttributePolicy(kdrv.contents.ProtocolVersion(*version)).is_attribute_supported(name)
 
 
@@ -943,6 +943,181 @@ def run_large(ctx, rng, idx, n, pols, cases, meta, defs):
                 oracle_check(ctx, store, req, fs, off, mx, version, obs, full_obs)
             if n_full and not is_heavy:
                 pages_check(ctx, store, req, fs, version, full_obs, rng.choice([50, 100, 100, 64, 33] if n_full > 40 else [7, 10]))
+    finally:
+        store.close()
+
+
+# ---------------------------------------------------------------------------------------------- requests through the TTLV decoder
+# An encoder of KMIP 1.x Locate request MESSAGES written here from the TTLV rules (tag 3 bytes, type 1 byte, length 4 bytes,
+# value padded to a multiple of 8), independent of the library's write methods; the bytes are decoded by the library
+# (messages.RequestMessage.read, as KmipSession does) and the decoded request is given to the engine.
+def _ttlv(tag, typ, body, length=None):
+    n = len(body) if length is None else length
+    pad = (-len(body)) % 8
+    return tag.to_bytes(3, 'big') + bytes([typ]) + n.to_bytes(4, 'big') + body + b'\x00' * pad
+
+
+def _w_struct(tag, *children):
+    return _ttlv(tag, 1, b''.join(children))
+
+
+def _w_int(tag, v):
+    return _ttlv(tag, 2, int(v).to_bytes(4, 'big', signed=True) + b'\x00' * 4, 4)
+
+
+def _w_enum(tag, v):
+    return _ttlv(tag, 5, int(v).to_bytes(4, 'big') + b'\x00' * 4, 4)
+
+
+def _w_bool(tag, v):
+    return _ttlv(tag, 6, (1 if v else 0).to_bytes(8, 'big'))
+
+
+def _w_text(tag, t):
+    return _ttlv(tag, 7, t.encode('utf-8'))
+
+
+def _w_date(tag, v):
+    return _ttlv(tag, 9, int(v).to_bytes(8, 'big', signed=True))
+
+
+def _w_interval(tag, v):
+    return _ttlv(tag, 10, int(v).to_bytes(4, 'big') + b'\x00' * 4, 4)
+
+
+T_ATTRIBUTE, T_ATTR_NAME, T_ATTR_VALUE = 0x420008, 0x42000A, 0x42000B
+DATE_NAMES = {'Activation Date', 'Process Start Date', 'Protect Stop Date', 'Deactivation Date', 'Destroy Date', 'Compromise Occurrence Date',
+              'Compromise Date', 'Archive Date', 'Last Change Date', 'Original Creation Date'}
+BOOL_NAMES = {'Fresh', 'Key Value Present', 'Always Sensitive', 'Extractable', 'Never Extractable'}
+TEXT_NAMES = {'Contact Information', 'Custom Attribute'}
+
+
+def wire_attribute(f):
+    """One Attribute structure for an abstract filter; ['other', name] carries a value of the type the KMIP specification
+    gives that attribute (a small structure for the structured ones)."""
+    k = f[0]
+    V = T_ATTR_VALUE
+    if k == 'name':
+        name, val = 'Name', _w_struct(V, _w_text(0x420055, f[1]), _w_enum(0x420054, enums.NameType[f[2]].value))
+    elif k == 'state':
+        name, val = 'State', _w_enum(V, enums.State[f[1]].value)
+    elif k == 'otype':
+        name, val = 'Object Type', _w_enum(V, OT[f[1]].value)
+    elif k == 'alg':
+        name, val = 'Cryptographic Algorithm', _w_enum(V, enums.CryptographicAlgorithm[f[1]].value)
+    elif k == 'len':
+        name, val = 'Cryptographic Length', _w_int(V, f[1])
+    elif k == 'mask':
+        name, val = 'Cryptographic Usage Mask', _w_int(V, mask_bits(f[1]))
+    elif k == 'policy':
+        name, val = 'Operation Policy Name', _w_text(V, f[1])
+    elif k == 'group':
+        name, val = 'Object Group', _w_text(V, f[1])
+    elif k == 'asi':
+        name, val = 'Application Specific Information', _w_struct(V, _w_text(0x420003, f[1]), _w_text(0x420002, f[2]))
+    elif k == 'certtype':
+        name, val = 'Certificate Type', _w_enum(V, enums.CertificateType[f[1]].value)
+    elif k == 'uid':
+        name, val = 'Unique Identifier', _w_text(V, f[1])
+    elif k == 'sensitive':
+        name, val = 'Sensitive', _w_bool(V, f[1])
+    elif k == 'date':
+        name, val = 'Initial Date', _w_date(V, f[1])
+    elif k == 'other':
+        name = f[1]
+        if name in DATE_NAMES:
+            val = _w_date(V, 1600000000)
+        elif name in BOOL_NAMES:
+            val = _w_bool(V, True)
+        elif name in TEXT_NAMES:
+            val = _w_text(V, 'ops')
+        elif name == 'Lease Time':
+            val = _w_interval(V, 60)
+        elif name == 'Certificate Length':
+            val = _w_int(V, 1024)
+        elif name in ('Digital Signature Algorithm', 'Key Value Location'):
+            val = _w_enum(V, 1)
+        elif name == 'Link':
+            val = _w_struct(V, _w_enum(0x42004B, 0x101), _w_text(0x42004C, '1'))
+        elif name == 'Revocation Reason':
+            val = _w_struct(V, _w_enum(0x420082, 1))
+        elif name == 'Usage Limits':
+            val = _w_struct(V, _ttlv(0x420097, 3, (100).to_bytes(8, 'big')), _ttlv(0x420096, 3, (100).to_bytes(8, 'big')), _w_enum(0x420098, 1))
+        else:
+            val = _w_struct(V, _w_text(0x42004C, 'x'))
+    else:
+        raise KeyError(k)
+    return _w_struct(T_ATTRIBUTE, _w_text(T_ATTR_NAME, name), val)
+
+
+def wire_locate_message(version, fs, off, mx):
+    payload = b''
+    if mx is not None:
+        payload += _w_int(0x42004F, mx)
+    if off is not None:
+        payload += _w_int(0x4200D4, off)
+    payload += b''.join(wire_attribute(f) for f in fs)
+    header = _w_struct(0x420077, _w_struct(0x420069, _w_int(0x42006A, version[0]), _w_int(0x42006B, version[1])), _w_int(0x42000D, 1))
+    item = _w_struct(0x42000F, _w_enum(0x42005C, 8), _w_struct(0x420079, payload))
+    return _w_struct(0x420078, header, item)
+
+
+def run_locate_wire(store, req, fs, off, mx, version):
+    """-> observation; 'decode' marks a request the server's decoder refused."""
+    from kmip.core import utils
+    data = wire_locate_message(version, fs, off, mx)
+    msg = kdrv.messages.RequestMessage()
+    try:
+        kv = kdrv.contents.protocol_version_to_kmip_version(store.eng.engine.default_protocol_version)
+        msg.read(utils.BytearrayStream(data), kmip_version=kv)
+    except Exception as e:
+        return {'ids': None, 'reason': 'DECODE', 'message': type(e).__name__}
+    r = store.eng.process(msg, req[0], req[1])
+    if r['error']:
+        return {'ids': None, 'reason': 'REQUEST:' + r['error']['reason'], 'message': r['error']['message']}
+    it = r['items'][0]
+    if not kdrv.ok(it):
+        return {'ids': None, 'reason': it['reason'], 'message': it['message']}
+    return {'ids': [str(x) for x in (it['raw'].response_payload.unique_identifiers or [])], 'reason': None, 'message': None}
+
+
+def run_wire(ctx, rng, idx, pols, cases, meta, defs):
+    """Every attribute name of enums.AttributeType as a Locate filter - alone, first, last - in messages encoded here and
+    decoded by the library.  Oracle: the request is refused, or the answer is the specification's over ALL filters sent."""
+    plan = GRID_PLAN[:4] + [GRID_CERT] + GRID_PLAN[4:8]
+    store = Store(ctx, plan, pols)
+    known = {'Name': 'name', 'State': 'state', 'Object Type': 'otype', 'Cryptographic Algorithm': 'alg', 'Cryptographic Length': 'len',
+             'Cryptographic Usage Mask': 'mask', 'Operation Policy Name': 'policy', 'Object Group': 'group',
+             'Application Specific Information': 'asi', 'Certificate Type': 'certtype', 'Unique Identifier': 'uid', 'Sensitive': 'sensitive',
+             'Initial Date': 'date'}
+    try:
+        sname = 'store_%d' % idx
+        defs.append('Definition %s : list obj := %s.' % (sname, cp.lst(store.objs, obj_to_coq).replace('; (mkObj', ';\n   (mkObj')))
+        req = ('alice', None)
+        for a in enums.AttributeType:
+            target = rng.choice(store.objs)
+            if a.value in known:
+                x = gen_filter_matching(rng, known[a.value], target) or gen_filter(rng, known[a.value], store)
+            else:
+                x = ['other', a.value]
+            companion = gen_filter_matching(rng, rng.choice(['otype', 'policy', 'uid', 'date']), target)
+            for fs in ([x], [x, companion], [companion, x], [companion, x, ['otype', OT(target['type']).name]]):
+                version = rng.choice([(1, 0), (1, 1), (1, 2), (1, 3), (1, 4)])
+                if a.value == 'Sensitive' and rng.random() < 0.7:
+                    version = (1, 4)
+                full_obs = run_locate_wire(store, req, fs, None, None, version)
+                for (off, mx) in [(None, None), (1, 1)][:rng.choice([1, 1, 2])]:
+                    obs = full_obs if off is None else run_locate_wire(store, req, fs, off, mx, version)
+                    ctx.count('wire_message.%s' % ('refused_by_decoder' if obs['reason'] == 'DECODE' else
+                                                   'failed' if obs['ids'] is None else 'empty' if not obs['ids'] else 'nonempty'))
+                    ctx.case_seen((idx, a.value, repr(fs), off, mx), nontrivial=True)
+                    if obs['reason'] == 'DECODE':
+                        continue                    # refused before the engine saw it: allowed by the property, outside the engine model
+                    cases.append(case_to_coq(sname, req, fs, off, mx, obs, version))
+                    meta.append({'store': idx, 'plan': plan, 'requester': list(req), 'filters': fs, 'offset': off, 'maximum': mx,
+                                 'version': list(version), 'observed': obs, 'objs': store.objs, 'through_decoder': True})
+                    store.extra = {'through_decoder': True}
+                    oracle_check(ctx, store, req, fs, off, mx, version, obs, full_obs if full_obs['reason'] != 'DECODE' else None)
     finally:
         store.close()
 
@@ -1298,6 +1473,8 @@ def run(ctx):
         doctored = (idx % 9 == 7)
         plan = gen_plan(rng, n, epoch=epoch, doctored=doctored)
         run_store(ctx, rng, idx, plan, pols, n_requests, cases, meta, defs, epoch=epoch or doctored)
+    # Locate messages encoded here and decoded by the library: every attribute name as a filter
+    run_wire(ctx, rng, 6000, pols, cases, meta, defs)
     # live policy reload: ONE engine, the policy file rewritten and rescanned between Locates
     for k in range(1 if quick else 6):
         run_live(ctx, rng, 7000 + k, 6 if quick else 9, cases, meta, defs)
